@@ -6,7 +6,7 @@ from pathlib import Path
 V = Path(__file__).resolve().parents[1]
 pid = sys.argv[1]
 txt = (V / "notes" / (pid + ".md")).read_text()
-m = re.search(r"```python\s*\n(CHECKS\[\"%s\"\] = dict\(.*?\n\))\s*\n```" % pid, txt, re.S)
+m = re.search(r"```python\s*\n(CHECKS\[\"%s\"\] = dict\(.*?\))\s*```" % pid, txt, re.S)
 assert m, "no CHECKS block in notes"
 block = m.group(1)
 ns = {"CHECKS": {}}
